@@ -364,7 +364,7 @@ def finish(ctx):
 
 
 PARTS = {
-  "grammar": Part("grammar", check_grammar, strategy=grammar_cases, n=(9600, 320000), shrinker=gen_srt.simplifications,
+  "grammar": Part("grammar", check_grammar, strategy=grammar_cases, n=(8000, 320000), shrinker=gen_srt.simplifications,
                   required_labels=("cues:0", "cues:1", "cues:2+", "eol:crlf", "eol:lf", "crlf-raw-stringio", "bom", "hours:>=100",
                                    "hours:3-digit-padded", "nested", "nested-depth>=3", "adjacent-tags", "tag-spans-lines",
                                    "tag:angle-short", "tag:angle-long", "tag:brace-long", "tag:brace-short(unrecognised)",
